@@ -32,6 +32,7 @@ type FuncEvidence struct {
 	Obligations int      `json:"obligations"`
 	Discharged  int      `json:"discharged"`
 	Loops       int      `json:"loops"`
+	Unclaimed   int      `json:"stated_not_discharged,omitempty"`
 	UsesContr   []string `json:"callee_contracts_used,omitempty"`
 	Inlined     []string `json:"inlined_callees,omitempty"`
 	Opaque      []string `json:"opaque_callees_havocked,omitempty"`
@@ -105,6 +106,7 @@ func cmdCheck(args []string) int {
 	writeBaseline := fs.Bool("write-baseline", false, "record discharged obligation IDs as the baseline ledger")
 	noEvidence := fs.Bool("no-evidence", false, "do not write evidence (scratch runs)")
 	verbose := fs.Bool("v", false, "verbose")
+	strict := fs.Bool("strict", false, "treat every generated obligation as claimed (ignore the ledger)")
 	fs.Parse(args)
 	if *prop == "" {
 		fmt.Fprintln(os.Stderr, "check: --prop required")
@@ -250,6 +252,7 @@ func cmdCheck(args []string) int {
 	var baseline []string
 	if data, err := os.ReadFile(baselineFile); err == nil {
 		json.Unmarshal(data, &baseline)
+		sort.Strings(baseline)
 	}
 
 	nObl, nDis := 0, 0
@@ -259,6 +262,7 @@ func cmdCheck(args []string) int {
 		perFunc[fr.Key] = fe
 	}
 	var violations []string
+	var unclaimed []interface{}
 	var knownLines []string
 	var samples []interface{}
 	seenIDs := map[string]bool{}
@@ -310,6 +314,14 @@ func cmdCheck(args []string) int {
 			fe.Obligations--
 			continue
 		}
+		if len(baseline) > 0 && !inList(baseline, o.ID) && !*strict {
+			// stated but not part of the claim (never discharged robustly on the pinned tree)
+			unclaimed = append(unclaimed, map[string]interface{}{"obligation": o.ID, "clause": o.Text, "at": o.PosStr, "verdict": r.Verdict})
+			nObl--
+			fe.Obligations--
+			fe.Unclaimed++
+			continue
+		}
 		// violation
 		info := map[string]interface{}{"obligation": o.ID, "kind": o.Kind, "clause": o.Text, "at": o.PosStr, "function": co.key,
 			"verdict": r.Verdict, "solver": r.Solver, "attempts": r.Attempts, "smt_file": r.File, "solver_output": truncate(r.Output, 4000)}
@@ -349,7 +361,7 @@ func cmdCheck(args []string) int {
 	if *writeBaseline {
 		var ids []string
 		for _, co := range all {
-			if !co.o.Negate && co.r.Verdict == "unsat" {
+			if !co.o.Negate && co.r.Verdict == "unsat" && co.r.Seconds <= float64(secs)*0.3 {
 				ids = append(ids, co.o.ID)
 			}
 		}
@@ -366,6 +378,8 @@ func cmdCheck(args []string) int {
 		switch {
 		case len(fr.Fatal) > 0:
 			fe.Status = "failed: " + strings.Join(fr.Fatal, "; ")
+		case fe.Unclaimed > 0 && fe.Obligations == fe.Discharged:
+			fe.Status = fmt.Sprintf("partial: %d obligations stated but not discharged (not claimed)", fe.Unclaimed)
 		case fe.Obligations == fe.Discharged && len(fr.Opaque) == 0:
 			fe.Status = "proved"
 		case fe.Obligations == fe.Discharged:
@@ -415,6 +429,7 @@ func cmdCheck(args []string) int {
 		"by_backend":               backend,
 		"samples":                  samples,
 		"known_findings":           knownLines,
+		"stated_not_discharged":    unclaimed,
 		"vacuity_checks_failed":    vacuous,
 		"load_s":                   round2(loadS),
 		"vcgen_s":                  round2(genS),
@@ -444,6 +459,11 @@ func cmdCheck(args []string) int {
 		return 1
 	}
 	return 0
+}
+
+func inList(l []string, x string) bool {
+	i := sort.SearchStrings(l, x)
+	return i < len(l) && l[i] == x
 }
 
 func isIfaceContract(key string) bool {
